@@ -249,6 +249,25 @@ def scn_filters_and_failures(T, case):
     C02.scn_rows(Renamed(T, "C02.rows.", "C01.combined."), case)
 
 
+# ------------------------------------------------------------------------------------ the validated estimator / filter maps have one index per function
+def cases_index_maps(tier):
+    from contracts import C18
+
+    for cid, c in C18.cases_validators(tier):
+        if c.get("v") == "index-maps":
+            yield cid, c
+
+
+def scn_index_maps(T, case):
+    """'Each value uses its configured estimator / the weights of the filter mapped to it' presupposes a validated configuration whose
+    maps have one index per function: a map given once is broadcast, never applied to the first function only (C18's validator
+    scenario under this property's prefix)."""
+    from contracts import C18
+    from contracts.reuse import Renamed
+
+    C18.scn_validators(Renamed(T, "C18.", "C01.config."), case)
+
+
 SCENARIOS = [
     Scenario("calculate_functions", scn_functions, cases_functions, {"quick": 2, "thorough": 10}),
     Scenario("calculate_functions_stddev_given_weights", scn_functions, cases_stddev, {"quick": 5, "thorough": 20}),
@@ -256,6 +275,7 @@ SCENARIOS = [
     Scenario("user_domain_results", scn_user_results, cases_user_results, {"quick": 3, "thorough": 20}),
     Scenario("plan_steps_hand_over", scn_steps, cases_steps, {"quick": 1, "thorough": 2}),
     Scenario("filters_failures_and_combined_requests", scn_filters_and_failures, cases_filters_and_failures, {"quick": 5, "thorough": 30}),
+    Scenario("validated_estimator_and_filter_maps", scn_index_maps, cases_index_maps, {"quick": 2, "thorough": 10}),
 ]
 
 MANIFEST = {
